@@ -7,7 +7,9 @@ SPEC = dict(
                'residual within 1e-4 (mono) / 1e-3 + 5 ppm (average), and the averagine estimate has the same monoisotopic mass; '
                'exhaustively every Unimod entry (average: CHNOPS only) and every self-consistent PSI-MOD entry. Deductive support: the '
                'charge-carrier / ion-offset side of the mass path is adjust_mass#ensures (proved under C02); the composition path '
-               '(_sequence_comp: dict accumulation over resolver calls) and the lemma L-CM are not under contract in this revision. PROVED '
+               '(_sequence_comp) is under contract (contracts/seqcomp.py: sum of the parts for any weighting of the entries); the glue of comp_mass '
+               '(copy, setters, condense_static_mods, _pop_delta_mass_mods -- in-place pops through property aliases) and the per-part lemma '
+               '"mass of a part == mass of its composition" (L-CM: tables ground, vocabulary bounded) are not. PROVED '
                '(contracts/masssum.py): for LABELLED peptides mass() is by construction chem_mass(comp_mass(..)[0]) + comp_mass(..)[1] + loss with '
                'the same ion type, resolved charge, isotope offset, adducts and labels.',
     level_note='Part-wise deductive agreement (DESIGN section 6, C03) is not built; the ground table obligations of C05 cover the ion offsets as '
@@ -16,12 +18,18 @@ SPEC = dict(
     design_ref='DESIGN.md section 6, C03',
     technique='bounded run-time relational check of the two real calculators (labelled stand-in) + ground obligations on the ion tables; '
               'relies on adjust_mass contract proved under C02',
-    contracts=['masssum'], targets={'masssum': ['peptacular.mass_calc:mass']},
+    contracts=['masssum', 'seqcomp'], targets={'masssum': ['peptacular.mass_calc:mass']},
     ground=[dict(module='ground.c03_tables')],
     bounded=[dict(name='C03-bounded', script='bounded/C03.py')],
     replay_finder='bounded/C03.py',
     explanation='ground obligations on the two ion-offset representations + bounded relational check; see level_text',
-    proved_clauses=['for every peptide with a global isotope label the real mass() returns chem_mass(composition of comp_mass(same peptide, same ion type, '
+    proved_clauses=['the real composition calculator _sequence_comp (both adduct variants; no static rules -- comp_mass condenses them first; no global '
+                    'label): for ANY weighting of the entry symbols -- so for the atomic masses of either mode -- the weighted total of the reported '
+                    'composition == sum over residues of the table composition + ion-type adjustment + charge carriers / adducts + the composition of '
+                    'every modification where it is written (labile only for the precursor) + isotope neutrons; no zero entries; the two residue '
+                    'errors exactly when stated (contracts/seqcomp.py, 126 obligations: 27 loops, cuts after the top-level statements). This is the '
+                    'composition-side counterpart of mass() == the sum of the MASSES of the same parts (contracts/masssum.py, C02)',
+                    'for every peptide with a global isotope label the real mass() returns chem_mass(composition of comp_mass(same peptide, same ion type, '
                     'resolved charge, isotope, adducts, labels)) + the residual it reports (+ loss), rounded only at the end (contracts/masssum.py, '
                     'mass#ensures[labelled-peptides-through-the-composition]; comp_mass / chem_mass enter as callees)',
                     'for each of the 18 ion types: mass of the charge-adduct TEXT == mass of the ion COMPOSITION == precomputed ion offset (ground, exact)'],
